@@ -1,5 +1,5 @@
 (* C04_sound, RR sections: ares_dns_parse_rr / the section loops against ref_rr / ref_rrs. *)
-From CAres.Wire Require Import Cursor Cursor_proofs Name Name_proofs Record Parse Parse_proofs Escape Escape_proofs RefDecode Bits Name_ref Parse_ref Parse_ref2 Parse_sets Parse_ref3.
+From CAres.Wire Require Import Cursor Cursor_proofs Name Name_proofs Record Parse Parse_proofs Escape Escape_proofs RefDecode Bits Name_ref Parse_ref Parse_ref2 Parse_sets Parse_ref3 Wnorm.
 From CAres.Gen Require Import Consts LeafFns Tables.
 Local Open Scope Z_scope.
 
@@ -67,7 +67,7 @@ Section RRs.
     parse_rr fixed_tree fuel (at_ p) 0 sect d = Ok (c', d') ->
     exists r_ref e ext x r_p,
       ref_rr bs (Z.to_nat p) = Some (r_ref, Z.to_nat e, ext, x) /\ c' = at_ e /\ pos_ok e /\
-      d' = app_sect d sect [r_p] (rc_upd (d_raw_rcode d) ext) /\ norm_rr r_p = norm_rr r_ref.
+      d' = app_sect d sect [r_p] (rc_upd (d_raw_rcode d) ext) /\ wnorm_rr r_p = wnorm_rr r_ref.
   Proof.
     intros Hp H. unfold parse_rr in H.
     destruct (dns_name_parse fuel (at_ p) true false) as [[nm c]| |] eqn:En; cbn [bind] in H; try discriminate.
@@ -129,7 +129,7 @@ Section RRs.
     parse_rrs fixed_tree fuel k (at_ p) 0 sect d = Ok (c', d') ->
     exists rs_ref e exts x rs_p,
       ref_rrs k bs (Z.to_nat p) = Some (rs_ref, Z.to_nat e, exts, x) /\ c' = at_ e /\ pos_ok e /\
-      d' = app_sect d sect rs_p (rc_fold (d_raw_rcode d) exts) /\ map norm_rr rs_p = map norm_rr rs_ref.
+      d' = app_sect d sect rs_p (rc_fold (d_raw_rcode d) exts) /\ map wnorm_rr rs_p = map wnorm_rr rs_ref.
   Proof.
     induction k as [|k IH]; intros p d c' d' Hp H.
     - cbn [parse_rrs] in H. injection H as <- <-. exists [], p, [], true, [].
